@@ -32,6 +32,20 @@ const (
 	c35SigInit  = "trust.decayFactor before Init(): precomputed table is all zero"
 )
 
+// known-finding signatures are reported at most a few times per run (every occurrence is
+// counted in the distribution); unknown signatures are always reported
+var c35seen = map[string]int{}
+
+func c35fail(c *Ctx, sig, detail string) {
+	if sig == c35SigWrap || sig == c35SigStale {
+		c35seen[sig]++
+		if c35seen[sig] > 3 {
+			return
+		}
+	}
+	c.Fail(sig, detail)
+}
+
 type c35score interface {
 	VerifIncrease(p, tr uint32, t int64) uint32
 	VerifInt(t int64) uint32
@@ -170,7 +184,7 @@ func c35exec(c *Ctx, st *c35state, line string) {
 				sig = c35SigWrap
 				c.Count("F21-wrap-seen")
 			}
-			c.Fail(sig, fmt.Sprintf("state (last=%d transient=%v persistent=%d), score before at t: %d, added persistent %d, returned %d", last0, tr0, pers0, before, p, r))
+			c35fail(c, sig, fmt.Sprintf("state (last=%d transient=%v persistent=%d), score before at t: %d, added persistent %d, returned %d", last0, tr0, pers0, before, p, r))
 		}
 		// O3: the returned score is the score at that instant
 		after := st.s.VerifInt(t)
@@ -180,7 +194,7 @@ func c35exec(c *Ctx, st *c35state, line string) {
 				sig = c35SigStale
 				c.Count("F21b-stale-seen")
 			}
-			c.Fail(sig, fmt.Sprintf("state (last=%d transient=%v persistent=%d): increase returned %d, int(%d) = %d", last0, tr0, pers0, r, t, after))
+			c35fail(c, sig, fmt.Sprintf("state (last=%d transient=%v persistent=%d): increase returned %d, int(%d) = %d", last0, tr0, pers0, r, t, after))
 		}
 		switch {
 		case tr == 0:
